@@ -293,6 +293,25 @@ namespace plan
       if (classes[c].ofield_class >= 0)
         out.push_back({"g" + std::to_string(c), classes[c].ofield_class});
     }
+    // the values an enum variable ranges over: its own and, transitively, those of the enums it includes; ids are global
+    std::vector<std::pair<int, std::string>> enum_values(int en) const
+    {
+      std::vector<std::pair<int, std::string>> out;
+      for (; en >= 0; en = enums[en].includes)
+        for (size_t i = 0; i < enums[en].vals.size(); ++i)
+          out.push_back({1000 * en + static_cast<int>(i), enums[en].vals[i]});
+      return out;
+    }
+    bool enum_related(int e1, int e2) const
+    {
+      for (int e = e1; e >= 0; e = enums[e].includes)
+        if (e == e2)
+          return true;
+      for (int e = e2; e >= 0; e = enums[e].includes)
+        if (e == e1)
+          return true;
+      return false;
+    }
     bool is_subclass(int c, int of) const
     {
       while (c >= 0)
